@@ -177,7 +177,7 @@ def build(seq, inter, place, variant):
     return div, div, sibs                                   # detached parent
 
 
-def plan(tier, seed):
+def _plan0(tier, seed):
     R, L = (3, 5) if tier == 'quick' else (7, 7)
     seqs = [''.join(p) for n in range(1, L + 1) for p in itertools.product('ab', repeat=n)]
     units = []
@@ -188,6 +188,17 @@ def plan(tier, seed):
         units.append({'kind': 'large', 'seed': seed * 7919 + i, 'n': 150 if tier == 'quick' else 600})
     for i in range(16 if tier == 'quick' else 64):
         units.append({'kind': 'ns', 'seed': seed * 7919 + 500 + i, 'n': 60 if tier == 'quick' else 300})
+    return units
+
+
+def plan(tier, seed):
+    """... plus the shared 'lazy' units: iselect consumed step by step while the caller edits, between two items, exactly what
+    this property's pseudo-classes depend on (vlib/lazy.py; the rest of the iteration must be what the selector designates on
+    the tree as it is now)."""
+    units = _plan0(tier, seed)
+    themes = ['nth']
+    k = 16 if tier == 'quick' else 160
+    units += [{'kind': 'lazy', 'theme': themes[i % len(themes)], 'seed': seed * 65521 + i, 'n': 60 if tier == 'quick' else 200} for i in range(k)]
     return units
 
 
